@@ -103,14 +103,14 @@ def eval_scope11(row):
     from AEIC.emissions.ei.pmnvol import calculate_PMnvolEI_scope11
     from AEIC.performance.types import ThrustMode
 
-    sn = float(row['sn'])
+    sn = {m: float(v) for m, v in row['sn'].items()}
     devs = []
     for eng, per_mode in row['ei'].items():
-        prof = calculate_PMnvolEI_scope11(tmv(sn, sn, sn, sn), eng, 5.0)
+        prof = calculate_PMnvolEI_scope11(tmv(sn['idle'], sn['approach'], sn['climb'], sn['takeoff']), eng, 5.0)
         for m in ThrustMode:
             got, want = float(prof[m]), per_mode[m.value] / 1e6
             if not (math.isfinite(got) and abs(got - want) <= ATM_TOL * max(abs(want), 1e-2)):
-                devs.append((f'scope11:value:{eng}', f'smoke number {sn:g}, {eng}, bypass ratio 5, {m.value}: index {got!r} g/kg; published equations (Scope11.tla): {want!r}'))
+                devs.append((f'scope11:value:{eng}', f'smoke numbers {sn}, {eng}, bypass ratio 5, {m.value}: index {got!r} g/kg; published equations (Scope11.tla): {want!r}'))
     return devs
 
 
@@ -391,7 +391,7 @@ def run(ctx: Ctx):
     ctx.rule = (
         'lattice cases per function (TLC-enumerated): ISA 0..26 km every 500 m; thrust categories for all calibration triples over {1,2,4,6} x 15 flows; '
         'sulfur 4 contents x 4 yields; HC/CO fit: calibration flows/indices as half-decade powers of ten x 11 evaluation flows (quick 24 057, thorough 180 224); '
-        'NOx regression: 6 318 calibration sets; FOA3 9 thrusts x 3 HC indices; ISA pressure ratio, FFM2 factor at Mach 0 / 0.4 / 0.8 / 0.95, HC/CO and NOx (humidity) ambient corrections at ISA and ISA+10 K as fixed-point numbers every 500 m up to 25 km (Atmos.tla); SCOPE11 11 smoke numbers x 4 modes x 2 engine types (rules) and 13 smoke numbers x 4 modes x 2 engine types as fixed-point numbers (Scope11.tla); MEEM on every altitude profile of 2..3 (4) points over 8 levels from the ground to 14 km (Profiles.tla); speciation 4 modes; non-trivial = clamped / tie / non-monotone calibration / stratospheric'
+        'NOx regression: 6 318 calibration sets; FOA3 9 thrusts x 3 HC indices; ISA pressure ratio, FFM2 factor at Mach 0 / 0.4 / 0.8 / 0.95, HC/CO and NOx (humidity) ambient corrections at ISA and ISA+10 K as fixed-point numbers every 500 m up to 25 km (Atmos.tla); SCOPE11 11 smoke numbers x 4 modes x 2 engine types (rules) and 13 uniform + 6 mixed smoke-number records (modes without data beside modes with) x 4 modes x 2 engine types as fixed-point numbers (Scope11.tla); MEEM on every altitude profile of 2..3 (4) points over 8 levels from the ground to 14 km (Profiles.tla); speciation 4 modes; non-trivial = clamped / tie / non-monotone calibration / stratospheric'
     )
     ctx.not_covered += [
         'the transcendental equations are decided as numbers to 2e-4 relative on the 500 m lattice (six-decimal fixed point in TLA+, specs/ei/Atmos.tla): a deviation below that is not seen; HC/CO and NOx ambient corrections at ISA and ISA+10 K only',
@@ -420,8 +420,9 @@ def run(ctx: Ctx):
     tlc.check(ctx, 'ei/Scope11', 'ei/MC_Scope11.cfg', workers=4)
     seen11 = set()
     for e in tlc.check(ctx, 'ei/Scope11', 'ei/Gen_Scope11.cfg', workers=1)['emitted']:
-        if e['sn'] not in seen11:
-            seen11.add(e['sn'])
+        k11 = json.dumps(e['sn'], sort_keys=True)
+        if k11 not in seen11:
+            seen11.add(k11)
             jobs.append(('Sc11', {'c': {'sn': e['sn']}, 'o': {}, **e}))
     # whole-flight altitude profiles (MEEM looks at the top of the flight): every sequence of 2..3 (4) levels
     tlc.check(ctx, 'ei/Profiles', 'ei/MC_Profiles.cfg', workers=4)
